@@ -43,16 +43,16 @@ def handle : List String → Option String
   | "LB" :: loose :: lineW :: tol :: dl :: dfl :: dfit :: inf :: rest => do
     let loose ← parseInt? loose
     let lineW ← floatOfHex? lineW
-    let P : Params Float := ⟨← floatOfHex? tol, ← floatOfHex? dl, ← floatOfHex? dfl, ← floatOfHex? dfit, ← floatOfHex? inf⟩
+    let P : Params Float := ⟨← floatOfHex? tol, ← floatOfHex? dl, ← floatOfHex? dfl, ← floatOfHex? dfit, ← floatOfHex? inf, 1e-10⟩
     let items ← parseItems rest []
     some (showOutcome (linebreak P items lineW loose))
   | "BEST" :: _loose :: lineW :: tol :: dl :: dfl :: dfit :: inf :: rest => do
     let lineW ← floatOfHex? lineW
-    let P : Params Float := ⟨← floatOfHex? tol, ← floatOfHex? dl, ← floatOfHex? dfl, ← floatOfHex? dfit, ← floatOfHex? inf⟩
+    let P : Params Float := ⟨← floatOfHex? tol, ← floatOfHex? dl, ← floatOfHex? dfl, ← floatOfHex? dfit, ← floatOfHex? inf, 1e-10⟩
     let items ← parseItems rest []
     some (match best P items lineW with | some d => hexOfFloat d | none => "none")
   | "VS" :: _loose :: _lineW :: tol :: dl :: dfl :: dfit :: inf :: rest => do
-    let P : Params Float := ⟨← floatOfHex? tol, ← floatOfHex? dl, ← floatOfHex? dfl, ← floatOfHex? dfit, ← floatOfHex? inf⟩
+    let P : Params Float := ⟨← floatOfHex? tol, ← floatOfHex? dl, ← floatOfHex? dfl, ← floatOfHex? dfit, ← floatOfHex? inf, 1e-10⟩
     let itemToks := rest.takeWhile (· != "R")
     let posToks := (rest.dropWhile (· != "R")).drop 1
     let items ← parseItems itemToks []
